@@ -1,12 +1,7 @@
-"""Thorough tier: re-run the property's rules on AST-edited scratch copies of the
-current tree (must-fire and must-stay-silent variants).  Filled in corpus.py."""
-import os
+"""Thorough tier: re-run the property's rules on edited scratch copies of the current tree
+(must-fire and must-stay-silent variants, see corpus.py)."""
 
 
 def run(ctx):
-    try:
-        from . import corpus
-    except ImportError:
-        ctx.info('SELFTEST', 'no variant corpus built yet')
-        return
+    from . import corpus
     corpus.run(ctx)
